@@ -38,8 +38,20 @@ Act ==
          key(x) == x \o "|" \o e.ch \o "|" \o Num(new)
          cnt(x) == Cardinality({i \in 1..Len(e.got) : e.got[i] = key(x)})
          listening == {x \in open2 : <<x, e.ch>> \in want}
+         \* a change followed by a second one before it was notified (Nested: the application's callback sets the value back;
+         \* LocalPair: two goroutines of the application, the value went forth and back iff e.two).  Per connection, in the
+         \* order of arrival: the value of the first change (not to its originator), then the value it went back to.
+         nested == (e.a = "Nested" \/ (e.a = "LocalPair" /\ e.two)) /\ ~e.skipped
+         pair1 == e.a = "LocalPair" /\ ~e.two /\ ~e.skipped           \* the no-change write came first: one change
+         norigin == IF e.a = "Nested" THEN e.c ELSE "app"
+         ev(v) == e.ch \o "|" \o Num(v)
+         nexp(x) == IF x \in open2 /\ <<x, e.ch>> \in want
+                    THEN (IF x # norigin THEN <<ev(e.v)>> ELSE <<>>) \o <<ev(val[e.ch])>> ELSE <<>>
      IN
-     /\ (~race => /\ Report("ExactlyOnce", SetOf(e.got) = expected)
+     /\ (nested => /\ Report("CarriesNewValue", \A x \in DOMAIN e.seqs : e.seqs[x] = nexp(x))
+                   /\ Report("CarriesNewValue", e.mid = e.v /\ e.val[e.ch] = val[e.ch]))
+     /\ (pair1 => Report("CarriesNewValue", \A x \in DOMAIN e.seqs : e.seqs[x] = IF x \in open2 /\ <<x, e.ch>> \in want THEN <<ev(e.val[e.ch])>> ELSE <<>>))
+     /\ ((~race /\ ~nested /\ ~pair1) => /\ Report("ExactlyOnce", SetOf(e.got) = expected)
                   /\ Report("ExactlyOnce", Len(e.got) = Cardinality(SetOf(e.got))))
      /\ (race => /\ Report("ExactlyOnce", \A x \in listening \ {e.c, e.d} : cnt(x) = (IF changed THEN 1 ELSE 0))
                  /\ Report("ExactlyOnce", SetOf(e.got) \subseteq {key(x) : x \in listening})
